@@ -101,9 +101,11 @@ func probeRun(name, stdin string, args []string) (out string, status int) {
 // programs
 
 // The 12 representative argument strings, by key name.
-var argNames = []string{"a", "empty", "b_c", "lead", "star", "qmark", "semi", "dollar", "dq", "sq", "dashn", "bslash", "b__c", "trail", "tab"}
+var argNames = []string{"a", "empty", "b_c", "lead", "star", "qmark", "semi", "dollar", "dq", "sq", "dashn", "bslash", "b__c", "trail", "tab", "b_sq", "b_dq", "b_star"}
 var argValue = map[string]string{"a": "a", "empty": "", "b_c": "b c", "lead": " lead", "star": "*", "qmark": "?", "semi": "a;b",
-	"dollar": "$HOME", "dq": `"q"`, "sq": "'q'", "dashn": "-n", "bslash": `\`, "b__c": "b  c", "trail": "t  ", "tab": "x\ty"}
+	"dollar": "$HOME", "dq": `"q"`, "sq": "'q'", "dashn": "-n", "bslash": `\`, "b__c": "b  c", "trail": "t  ", "tab": "x\ty",
+	// a blank TOGETHER with a quote or a glob character (whatever quoting a blank triggers must still be right for the rest)
+	"b_sq": "it's a", "b_dq": `say "hi" x`, "b_star": "a *"}
 
 var origins = []string{"literal", "var", "concat", "call", "capture"}
 
